@@ -67,7 +67,7 @@ INEXACT_LITERALS = ["3.14159"]      # BeffSem!InexactFractions
 
 
 def has_recursive_decl(env):
-    """syntactic projection: is some declaration reachable from itself?"""
+    """syntactic projection: is there a recursive declaration whose body mentions a non-recursive named type?"""
     def refs(t, acc):
         if isinstance(t, dict):
             if t.get("t") in ("ref", "app") and "n" in t:
@@ -79,7 +79,8 @@ def has_recursive_decl(env):
                 refs(v, acc)
         return acc
     g = {d["n"]: refs(d.get("ty", {}), set()) for d in env}
-    for n in g:
+
+    def reaches_itself(n):
         seen, todo = set(), list(g[n])
         while todo:
             x = todo.pop()
@@ -89,7 +90,11 @@ def has_recursive_decl(env):
                 continue
             seen.add(x)
             todo += list(g[x])
-    return False
+        return False
+    rec = {n for n in g if reaches_itself(n)}
+    # describe() inlines named types that are referenced once: a recursive declaration whose body mentions a named type
+    # that is not itself recursive can come back as an unrolling
+    return any(m in g and m not in rec for n in rec for m in g[n])
 
 
 def vec(o):
